@@ -4,6 +4,7 @@
 From Coq Require Import String Ascii List Bool Arith NArith ZArith Lia.
 From Raven Require Import Base.GoStr Base.GoStrFacts Model.Search Model.SearchText Spec.Search Model.SearchClass
   Proof.SearchTok Proof.SearchAtoms Proof.SearchDate.
+From Raven Require Model.SeqSet Spec.SeqSet Proof.SeqSetParse Proof.FetchSearchExact.
 Import ListNotations.
 Local Open Scope Z_scope.
 Local Arguments Ascii.eqb : simpl never.
@@ -11,91 +12,65 @@ Local Arguments Ascii.eqb : simpl never.
 Definition ra (t : str) : bool := requires_argument (to_upper t).
 
 Section Unfold.
-Variable rec : list str -> option bool.
 Variable m : msg.
-Notation EL := (eval_loop go_text rec m).
+Variable f : nat.
+Notation EL := (eval_loop go_text m (S f)).
+Notation EK := (eval_loop go_text m f).
 
-Lemma el_all rest : EL (S_ "ALL" :: rest) = EL rest.
+Lemma el_nil : EL [] = Some true.
 Proof. reflexivity. Qed.
-Lemma el_has f rest : EL (has_token f :: rest) = andk (has_flag_go (m_flags m) (flag_name f)) (EL rest).
-Proof. destruct f; reflexivity. Qed.
-Lemma el_un f rest : EL (un_token f :: rest) = andk (negb (has_flag_go (m_flags m) (flag_name f))) (EL rest).
-Proof. destruct f; reflexivity. Qed.
+Lemma el_all rest : EL (S_ "ALL" :: rest) = EK rest.
+Proof. reflexivity. Qed.
+Lemma el_has fl rest : EL (has_token fl :: rest) = andk (has_flag_go (m_flags m) (flag_name fl)) (EK rest).
+Proof. destruct fl; reflexivity. Qed.
+Lemma el_un fl rest : EL (un_token fl :: rest) = andk (negb (has_flag_go (m_flags m) (flag_name fl))) (EK rest).
+Proof. destruct fl; reflexivity. Qed.
 Lemma el_new rest : EL (S_ "NEW" :: rest) =
-  andk (has_flag_go (m_flags m) flag_recent && negb (has_flag_go (m_flags m) flag_seen)) (EL rest).
+  andk (has_flag_go (m_flags m) flag_recent && negb (has_flag_go (m_flags m) flag_seen)) (EK rest).
 Proof. reflexivity. Qed.
-Lemma el_keyword w rest : EL (S_ "KEYWORD" :: w :: rest) = andk (has_flag_go (m_flags m) (unquote w)) (EL rest).
+Lemma el_keyword w rest : EL (S_ "KEYWORD" :: w :: rest) = andk (has_flag_go (m_flags m) (unquote w)) (EK rest).
 Proof. reflexivity. Qed.
-Lemma el_unkeyword w rest : EL (S_ "UNKEYWORD" :: w :: rest) = andk (negb (has_flag_go (m_flags m) (unquote w))) (EL rest).
+Lemma el_unkeyword w rest : EL (S_ "UNKEYWORD" :: w :: rest) = andk (negb (has_flag_go (m_flags m) (unquote w))) (EK rest).
 Proof. reflexivity. Qed.
-Lemma el_seq t rest : is_sequence_set (to_upper t) = true ->
-  EL (t :: rest) = andk (matches_sequence_set (m_seq m) (to_upper t)) (EL rest).
-Proof. intros H. cbn [eval_loop]. now rewrite H. Qed.
-Lemma el_uid a rest : EL (S_ "UID" :: a :: rest) = andk (matches_sequence_set (m_uid m) a) (EL rest).
+Lemma el_seq t rest : is_group (to_upper t) = false -> Model.SeqSet.is_sequence_set (to_upper t) = true ->
+  EL (t :: rest) = andk (Model.SeqSet.matches_sequence_set (m_seq m) (to_upper t) (m_maxseq m)) (EK rest).
+Proof. intros G H. cbn [eval_loop]. now rewrite G, H. Qed.
+Lemma el_uid a rest : EL (S_ "UID" :: a :: rest) = andk (Model.SeqSet.matches_sequence_set (m_uid m) a (m_maxuid m)) (EK rest).
 Proof. reflexivity. Qed.
-Lemma el_hdr h a rest : EL (hdr_token h :: a :: rest) = andk (matches_header_or_body m (hdr_kw h) (unquote a)) (EL rest).
+Lemma el_hdr h a rest : EL (hdr_token h :: a :: rest) = andk (matches_header_or_body m (hdr_kw h) (unquote a)) (EK rest).
 Proof. destruct h; reflexivity. Qed.
-Lemma el_body a rest : EL (S_ "BODY" :: a :: rest) = andk (matches_header_or_body m KwBODY (unquote a)) (EL rest).
+Lemma el_body a rest : EL (S_ "BODY" :: a :: rest) = andk (matches_header_or_body m KwBODY (unquote a)) (EK rest).
 Proof. reflexivity. Qed.
-Lemma el_text a rest : EL (S_ "TEXT" :: a :: rest) = andk (matches_header_or_body m KwTEXT (unquote a)) (EL rest).
+Lemma el_text a rest : EL (S_ "TEXT" :: a :: rest) = andk (matches_header_or_body m KwTEXT (unquote a)) (EK rest).
 Proof. reflexivity. Qed.
-Lemma el_header f s rest : EL (S_ "HEADER" :: f :: s :: rest) = andk (matches_header m (unquote f) (unquote s)) (EL rest).
+Lemma el_header fn s rest : EL (S_ "HEADER" :: fn :: s :: rest) = andk (matches_header m (unquote fn) (unquote s)) (EK rest).
 Proof. reflexivity. Qed.
 Lemma el_larger a rest : EL (S_ "LARGER" :: a :: rest) =
-  andk (match atoi a with Some size => matches_size m size true | None => false end) (EL rest).
+  andk (match atoi a with Some size => matches_size m size true | None => false end) (EK rest).
 Proof. reflexivity. Qed.
 Lemma el_smaller a rest : EL (S_ "SMALLER" :: a :: rest) =
-  andk (match atoi a with Some size => matches_size m size false | None => false end) (EL rest).
+  andk (match atoi a with Some size => matches_size m size false | None => false end) (EK rest).
 Proof. reflexivity. Qed.
 Lemma el_date sent c a rest : EL (date_token sent c :: a :: rest) =
-  andk (if sent then matches_sent_date m (unquote a) c else matches_date (m_idate m) (unquote a) c) (EL rest).
+  andk (if sent then matches_sent_date m (unquote a) c else matches_date (m_idate m) (unquote a) c) (EK rest).
 Proof. destruct sent, c; reflexivity. Qed.
 
-Lemma el_not_unfold k rest1 : EL (S_ "NOT" :: k :: rest1) =
-  if ra k then match rest1 with
-               | a :: rest2 => notk (rec [k; a]) (EL rest2)
-               | [] => notk (rec [k]) (EL rest1)
-               end
-  else notk (rec [k]) (EL rest1).
+Lemma el_not rest : EL (S_ "NOT" :: rest) =
+  let n := search_key_length rest in
+  if (length rest <? n)%nat then Some false
+  else notk (EK (firstn n rest)) (EK (skipn n rest)).
 Proof. reflexivity. Qed.
 
-Lemma el_or_unfold k1 x rest2 : EL (S_ "OR" :: k1 :: x :: rest2) =
-  if ra k1 then
-    match rest2 with
-    | [] => Some false
-    | k2 :: rest3 =>
-        if ra k2 then
-          match rest3 with
-          | a2 :: rest4 => ork (rec [k1; x]) (rec [k2; a2]) (EL rest4)
-          | [] => ork (rec [k1; x]) (rec [k2]) (EL rest3)
-          end
-        else ork (rec [k1; x]) (rec [k2]) (EL rest3)
-    end
-  else
-    if ra x then
-      match rest2 with
-      | a2 :: rest3 => ork (rec [k1]) (rec [x; a2]) (EL rest3)
-      | [] => ork (rec [k1]) (rec [x]) (EL rest2)
-      end
-    else ork (rec [k1]) (rec [x]) (EL rest2).
+Lemma el_or rest : EL (S_ "OR" :: rest) =
+  let n1 := search_key_length rest in
+  let n2 := search_key_length (skipn n1 rest) in
+  if (length rest <? n1 + n2)%nat then Some false
+  else ork (EK (firstn n1 rest)) (EK (firstn n2 (skipn n1 rest))) (EK (skipn (n1 + n2) rest)).
 Proof. reflexivity. Qed.
 
-(** the token lists of operands: one token that takes no argument, or a key
-    word that takes one followed by its argument *)
-Definition shape (toks : list str) : Prop :=
-  (exists t, toks = [t] /\ ra t = false) \/ (exists t a, toks = [t; a] /\ ra t = true).
-
-Lemma el_not toks rest : shape toks -> EL (S_ "NOT" :: toks ++ rest) = notk (rec toks) (EL rest).
-Proof.
-  intros [(t & -> & H) | (t & a & -> & H)]; simpl app; rewrite el_not_unfold, H; reflexivity.
-Qed.
-
-Lemma el_or ta tb rest : shape ta -> shape tb ->
-  EL (S_ "OR" :: ta ++ tb ++ rest) = ork (rec ta) (rec tb) (EL rest).
-Proof.
-  intros [(t & -> & H) | (t & a & -> & H)] [(u & -> & K) | (u & b & -> & K)];
-    simpl app; rewrite el_or_unfold, H, ?K; reflexivity.
-Qed.
+Lemma el_group t rest : is_group (to_upper t) = true ->
+  EL (t :: rest) = seqk (EK (parse_search_tokens (group_inner t))) (EK rest).
+Proof. intros G. cbn [eval_loop]. now rewrite G. Qed.
 End Unfold.
 
 (** ** facts about the tokens of fragment keys *)
@@ -115,6 +90,51 @@ Lemma ra_digit c t : is_digit c = true -> ra (c :: t) = false.
 Proof.
   intros H. unfold ra, requires_argument. cbn [to_upper map]. rewrite (upper_digit c H).
   now rewrite (kw_of_digit c _ H).
+Qed.
+
+Lemma is_group_digit c r : is_digit c = true -> is_group (c :: r) = false.
+Proof.
+  intros H. destruct (digit_facts c H) as (_ & _ & _ & _ & _ & _ & _ & _ & E & _).
+  unfold is_group. destruct (rev r); [reflexivity|]. now rewrite E.
+Qed.
+
+(** printed sets: sequence-set characters only, first one a digit or "*" *)
+Lemma print_set_facts s : Spec.SeqSet.wf s = true ->
+  to_upper (Spec.SeqSet.print s) = Spec.SeqSet.print s
+  /\ Model.SeqSet.is_sequence_set (Spec.SeqSet.print s) = true
+  /\ FetchSearchExact.head_ok (Spec.SeqSet.print s) = true
+  /\ forallb FetchSearchExact.seqchar (Spec.SeqSet.print s) = true.
+Proof.
+  intros H. destruct (SeqSetParse.wf_forall s H) as [_ Hall].
+  assert (SC : forallb FetchSearchExact.seqchar (Spec.SeqSet.print s) = true).
+  { unfold Spec.SeqSet.print. apply FetchSearchExact.join_seqchar. intros x Hx. apply in_map_iff in Hx. destruct Hx as (it & <- & Hit).
+    now apply FetchSearchExact.print_item_seqchar, Hall. }
+  pose proof (FetchSearchExact.print_head s H) as Hd.
+  split; [now apply FetchSearchExact.to_upper_seqchars|]. split; [|split; [exact Hd | exact SC]].
+  unfold Model.SeqSet.is_sequence_set. destruct (str_eqb (Spec.SeqSet.print s) Model.SeqSet.s_star); [reflexivity|].
+  unfold FetchSearchExact.head_ok in Hd.
+  assert (E : forallb (fun c => Ascii.eqb c Model.SeqSet.c_colon || Ascii.eqb c Model.SeqSet.c_star || Ascii.eqb c Model.SeqSet.c_comma || is_digit c) (Spec.SeqSet.print s) = true)
+    by exact SC.
+  rewrite E. exact Hd.
+Qed.
+
+Lemma head_cases t : FetchSearchExact.head_ok t = true -> exists c r, t = c :: r /\ (is_digit c = true \/ c = star).
+Proof.
+  destruct t as [|c r]; [discriminate|]. cbn. intros H. exists c, r. split; [reflexivity|].
+  apply orb_true_iff in H as [H | H]; [now left | right; now apply Ascii.eqb_eq in H].
+Qed.
+
+Lemma kw_of_star r : kw_of (star :: r) = None.
+Proof. reflexivity. Qed.
+
+Lemma head_facts t : FetchSearchExact.head_ok t = true -> to_upper t = t ->
+  kw_of t = None /\ is_group t = false /\ ra t = false.
+Proof.
+  intros H U. destruct (head_cases t H) as (c & r & -> & [D | ->]).
+  - split; [now apply kw_of_digit|]. split; [now apply is_group_digit|].
+    unfold ra. rewrite U. unfold requires_argument. now rewrite (kw_of_digit c r D).
+  - split; [reflexivity|]. split; [unfold is_group; destruct (rev r); reflexivity|].
+    unfold ra. rewrite U. reflexivity.
 Qed.
 
 Lemma in_numbered {A} (l : list A) : forall i j x, In (j, x) (number_from i l) -> In x l.
@@ -141,34 +161,39 @@ Proof.
   - revert H. apply forallb_impl. intros x Hx. apply A in Hx as (-> & -> & -> & ->). reflexivity.
 Qed.
 
+Definition atomic (k : key) : Prop := match k with KNot _ | KOr _ _ | KGroup _ => False | _ => True end.
+
 Section Step.
-Variable rec : list str -> option bool.
-Variables (nseq maxuid : Z).
+Variable f : nat.
 Variable mb : list smsg.
+Notation nseq := (Z.of_nat (length mb)).
+Notation maxuid := (last_uid mb).
 Variables (i : Z) (sm : smsg).
 Hypothesis Hin : In (i, sm) (numbered mb).
 Hypothesis Hmb : mb_ok mb = true.
-Notation m := (to_msg (i, sm)).
-Notation EL := (eval_loop go_text rec m).
+Notation m := (to_msg mb (i, sm)).
+Notation EL := (eval_loop go_text m (S f)).
+Notation EK := (eval_loop go_text m f).
 Notation SP := (spec_eval nseq maxuid).
 
 Lemma flag_step w : has_flag_go (m_flags m) w = has_flag sm w.
 Proof.
-  cbn [to_msg m_flags]. unfold has_flag. apply flag_test_go.
-  unfold mb_ok in Hmb. rewrite forallb_forall in Hmb. apply Hmb. eapply in_numbered. exact Hin.
+  cbn [to_msg to_msg_in m_flags]. unfold has_flag. apply flag_test_go.
+  unfold mb_ok in Hmb. apply andb_true_iff in Hmb as [Hmb' _]. apply andb_true_iff in Hmb' as [Hf _].
+  rewrite forallb_forall in Hf. apply Hf. eapply in_numbered. exact Hin.
 Qed.
 
-Lemma text_step k : text_class k mb = None -> text_agree_on k (i, sm) = true.
+Lemma text_step k : text_class k mb = None -> text_agree_on mb k (i, sm) = true.
 Proof.
-  unfold text_class. destruct (forallb (text_agree_on k) (numbered mb)) eqn:E; [|discriminate].
+  unfold text_class. destruct (forallb (text_agree_on mb k) (numbered mb)) eqn:E; [|discriminate].
   intros _. rewrite forallb_forall in E. now apply E.
 Qed.
 
 (** keys other than NOT / OR *)
-Lemma simple_step k rest : wf_key k = true -> simple_class k mb = None ->
-  EL (key_tokens k ++ rest) = andk (SP k i sm) (EL rest).
+Lemma simple_step k rest : atomic k -> wf_key k = true -> simple_class k mb = None ->
+  EL (key_tokens k ++ rest) = andk (SP k i sm) (EK rest).
 Proof.
-  intros W C. destruct k; cbn [key_tokens app]; cbn [simple_class] in C; try discriminate.
+  intros Hat W C. destruct k; try contradiction; cbn [key_tokens app]; cbn [simple_class] in C; try discriminate.
   - (* ALL *) apply el_all.
   - (* has flag *) rewrite el_has. now rewrite flag_step.
   - (* un flag *) rewrite el_un. now rewrite flag_step.
@@ -177,35 +202,12 @@ Proof.
     rewrite el_keyword, unquote_plain by assumption. now rewrite flag_step.
   - (* UNKEYWORD *) cbn [wf_key] in W. destruct (atom_facts w W) as (A1 & A2 & A3 & A4 & _).
     rewrite el_unkeyword, unquote_plain by assumption. now rewrite flag_step.
-  - (* sequence set *) cbn [wf_key] in W. unfold set_class in C.
-    destruct s as [|[[d|]|[a|] [b|]] [|? ?]]; try discriminate.
-    + unfold set_ok in W. cbn in W. rewrite andb_true_r in W.
-      destruct (numeral_digits d W) as [Hd Hne].
-      unfold print_set. cbn [map join print_item print_snum].
-      assert (U : to_upper d = d) by (apply to_upper_nolower; now apply digits_nolower).
-      rewrite el_seq by (rewrite U; now apply is_seqset_digits). rewrite U, mss_one by exact W.
-      cbn [to_msg m_seq spec_eval set_has existsb item_has snum_val]. now rewrite orb_false_r.
-    + destruct (digits_val a 0 <=? digits_val b 0) eqn:Le; [|discriminate]. apply Z.leb_le in Le.
-      unfold set_ok in W. cbn in W. rewrite andb_true_r in W. apply andb_true_iff in W as [Wa Wb].
-      destruct (numeral_digits a Wa) as [Hda Hnea]. destruct (numeral_digits b Wb) as [Hdb Hneb].
-      unfold print_set. cbn [map join print_item print_snum].
-      assert (U : to_upper (a ++ colon :: b) = a ++ colon :: b).
-      { apply to_upper_nolower. rewrite forallb_app. rewrite (digits_nolower a Hda). cbn [forallb]. now rewrite (digits_nolower b Hdb). }
-      rewrite el_seq by (rewrite U; now apply is_seqset_range). rewrite U, mss_range by assumption.
-      cbn [to_msg m_seq spec_eval set_has existsb item_has snum_val]. rewrite orb_false_r.
-      now rewrite Z.min_l, Z.max_r by lia.
-  - (* UID set *) cbn [wf_key] in W. unfold set_class in C.
-    destruct s as [|[[d|]|[a|] [b|]] [|? ?]]; try discriminate.
-    + unfold set_ok in W. cbn in W. rewrite andb_true_r in W.
-      unfold print_set. cbn [map join print_item print_snum].
-      rewrite el_uid, mss_one by exact W.
-      cbn [to_msg m_uid spec_eval set_has existsb item_has snum_val]. now rewrite orb_false_r.
-    + destruct (digits_val a 0 <=? digits_val b 0) eqn:Le; [|discriminate]. apply Z.leb_le in Le.
-      unfold set_ok in W. cbn in W. rewrite andb_true_r in W. apply andb_true_iff in W as [Wa Wb].
-      unfold print_set. cbn [map join print_item print_snum].
-      rewrite el_uid, mss_range by assumption.
-      cbn [to_msg m_uid spec_eval set_has existsb item_has snum_val]. rewrite orb_false_r.
-      now rewrite Z.min_l, Z.max_r by lia.
+  - (* sequence set *) cbn [wf_key] in W. unfold set_ok in W.
+    destruct (print_set_facts s W) as (U & IS & HD & _). destruct (head_facts _ HD U) as (_ & G & _).
+    rewrite el_seq; [| now rewrite U | now rewrite U]. rewrite U.
+    cbn [to_msg to_msg_in m_seq m_maxseq spec_eval]. now rewrite (FetchSearchExact.matches_set_exact s _ i W).
+  - (* UID set *) cbn [wf_key] in W. unfold set_ok in W. rewrite el_uid.
+    cbn [to_msg to_msg_in m_uid m_maxuid spec_eval]. now rewrite (FetchSearchExact.matches_set_exact s _ (s_uid sm) W).
   - (* BCC CC FROM SUBJECT TO *) rewrite el_hdr. unfold quote. rewrite unquote_quote.
     pose proof (text_step _ C) as A. cbn [text_agree_on snd] in A. apply eqb_prop in A. now rewrite A.
   - (* HEADER *) rewrite el_header. unfold quote. rewrite !unquote_quote.
@@ -224,7 +226,7 @@ Proof.
         repeat match goal with X : negb _ = true |- _ => apply negb_true_iff in X end. assumption. }
     rewrite U. destruct sent.
     + pose proof (text_step _ C) as A. cbn [text_agree_on snd] in A. apply eqb_prop in A. now rewrite A.
-    + unfold matches_date. rewrite (parse_print_date d W). cbn [spec_eval to_msg m_idate].
+    + unfold matches_date. rewrite (parse_print_date d W). cbn [spec_eval to_msg to_msg_in m_idate].
       destruct (sdate_val d); reflexivity.
 Qed.
 End Step.
